@@ -266,6 +266,9 @@ pub fn run_case(case: &Value, idx: usize, seed: u64, pool: &mut KeyPool, out: &m
 	// alternative public key sources
 	let mut spki_obj: Option<SubjectPublicKeyInfo> = None;
 	let mut csr_pk: Option<PublicKey> = None;
+	// "csr-path": the parsed request itself is the thing that gets signed (CertificateSigningRequestParams::signed_by), with
+	// the case's parameters put in place of the parsed ones (the field is public)
+	let mut csr_obj: Option<CertificateSigningRequestParams> = None;
 	if is_self {
 		pub_src = "keypair".to_string();
 	}
@@ -274,13 +277,19 @@ pub fn run_case(case: &Value, idx: usize, seed: u64, pool: &mut KeyPool, out: &m
 			Outcome::Ok(s) => spki_obj = Some(s),
 			_ => pub_src = "keypair".to_string(),
 		}
-	} else if pub_src == "csr" {
+	} else if pub_src == "csr" || pub_src == "csr-path" {
 		let r = guarded(|| {
 			let csr = CertificateParams::default().serialize_request(&subject.kp)?;
 			CertificateSigningRequestParams::from_der(csr.der())
 		});
 		match r {
-			Outcome::Ok(c) => csr_pk = Some(c.public_key),
+			Outcome::Ok(c) => {
+				if pub_src == "csr-path" {
+					csr_obj = Some(c);
+				} else {
+					csr_pk = Some(c.public_key);
+				}
+			},
 			_ => pub_src = "keypair".to_string(),
 		}
 	}
@@ -301,6 +310,11 @@ pub fn run_case(case: &Value, idx: usize, seed: u64, pool: &mut KeyPool, out: &m
 				"fakepub" => params.signed_by(fake.as_ref().unwrap(), ic, &signer.kp),
 				"spki" => params.signed_by(spki_obj.as_ref().unwrap(), ic, &signer.kp),
 				"csr" => params.signed_by(csr_pk.as_ref().unwrap(), ic, &signer.kp),
+				"csr-path" => {
+					let mut c = csr_obj.take().unwrap();
+					c.params = params;
+					c.signed_by(ic, &signer.kp)
+				},
 				_ => params.signed_by(&subject.kp, ic, &signer.kp),
 			}
 		}
@@ -327,7 +341,7 @@ pub fn run_random(out_path: &str, n: usize) {
 		let is_self = rng.chance(1, 2);
 		let c = json!({"grp": "random", "_id": format!("random/{}/{}", seed, i), "params": random_params(&mut rng), "self": is_self,
 			"subjAlg": rng.pick(&algs), "signAlg": rng.pick(&algs), "issuerKid": rng.pick(&kids), "issuerDn": random_dn(&mut rng, 4),
-			"pubSrc": rng.pick(&["keypair", "keypair", "spki", "csr"]), "hash2": []});
+			"pubSrc": rng.pick(&["keypair", "keypair", "spki", "csr", "csr-path"]), "hash2": []});
 		run_case(&c, i, seed, &mut pool, &mut out);
 	}
 	// value-dependent signature encodings: many different to-be-signed contents under local RSA keys of each
